@@ -235,6 +235,12 @@ func strEq(x, y value) value {
 func strLess(x, y value) value {
 	a, b := strSegs(x), strSegs(y)
 	if hasTokens(a) || hasTokens(b) {
+		if r, ok := numTextVsFirstByte(a, b, false); ok {
+			return r
+		}
+		if r, ok := numTextVsFirstByte(b, a, true); ok {
+			return r
+		}
 		panic(needFlatten{"ordering of strings with tokens"})
 	}
 	n := len(a)
@@ -246,6 +252,34 @@ func strLess(x, y value) value {
 		res = Or(BvUlt(a[i].T, b[i].T), And(Eq(a[i].T, b[i].T), res))
 	}
 	return mkScalar(res, types.Bool)
+}
+
+// numTextVsFirstByte decides the order of a string that starts with the %v
+// text of a float64 against a string whose first byte is concrete and cannot
+// start a number's text: every number text starts with a digit, '-', '+'
+// (+Inf) or 'N' (NaN), so the first byte decides. swapped: the result wanted
+// is other < num-text instead of num-text < other.
+func numTextVsFirstByte(num, other []Seg, swapped bool) (value, bool) {
+	if len(num) == 0 || num[0].K != SegNum || len(other) == 0 || other[0].K != SegByte || !other[0].T.IsConst() {
+		return nil, false
+	}
+	c := byte(other[0].T.U)
+	nan := FpIsNaN(num[0].T)
+	var less *Term // num-text < other
+	switch {
+	case c < '+':
+		less = BoolT(false)
+	case c > '9' && c < 'N':
+		less = Not(nan) // "NaN" sorts after c, everything else before
+	case c > 'N':
+		less = BoolT(true)
+	default:
+		return nil, false
+	}
+	if swapped {
+		return mkScalar(Not(less), types.Bool), true // first bytes differ, so not(<) is >
+	}
+	return mkScalar(less, types.Bool), true
 }
 
 func strBinop(op token.Token, x, y value) value {
